@@ -342,8 +342,8 @@ theorem unlinkSboms_frame (root : Bool) (s : FS) (n : Name) (hd : isDirAt s [lay
   intro p hp
   exact this p (fun hm => ((outside_iff n p).mp hp).2 (List.mem_cons_of_mem _ hm))
 
-theorem createLayer_frame (root : Bool) (api : Api) (s : FS) (n : Name) (hd : isDirAt s [layersName] = true) :
-    Frame n s (createLayer root api s n).2 := by
+theorem createLayer_frame (root : Bool) (api : Api) (bp : Bp) (s : FS) (n : Name) (hd : isDirAt s [layersName] = true) :
+    Frame n s (createLayer root api bp s n).2 := by
   unfold createLayer
   have hmk : ∀ s1, mkdirAll root 2 s (layerPath n) = .ok s1 → Frame n s s1 := by
     intro s1 h
@@ -358,6 +358,10 @@ theorem createLayer_frame (root : Bool) (api : Api) (s : FS) (n : Name) (hd : is
     simp only
     have hf1 := hmk s1 hm
     have hd1 := layersDir_of_frame hf1 hd
+    cases hcf : createFails api bp with
+    | true => exact hf1
+    | false =>
+    simp only [Bool.false_eq_true, if_false]
     have hwr : ∀ s2, writeFile root s1 (tomlPath n) (freshToml api) = .ok s2 → Frame n s1 s2 := by
       intro s2 h
       rcases writeFile_pair root s1 layersName (tomlName n) (freshToml api) hd1 with ⟨e, he⟩ | ⟨m, he⟩
@@ -385,14 +389,16 @@ theorem createLayer_frame (root : Bool) (api : Api) (s : FS) (n : Name) (hd : is
 
 theorem tag_snd (b : Bool) (r : CreateRes) : (tag b r).2 = r.2 := by
   obtain ⟨res, s⟩ := r
-  cases res <;> rfl
+  cases res with
+  | ok u => rfl
+  | error e => obtain ⟨st, e⟩ := e; rfl
 
-theorem request_frame_lemma (root : Bool) (api : Api) (t : FS) (n : Name) (hd : isDirAt t [layersName] = true) :
-    Frame n t (request root api t n).2 := by
+theorem request_frame_lemma (root : Bool) (api : Api) (bp : Bp) (t : FS) (n : Name) (hd : isDirAt t [layersName] = true) :
+    Frame n t (request root api bp t n).2 := by
   unfold request
   simp only
   split
-  · rw [tag_snd]; exact createLayer_frame root api t n hd
+  · rw [tag_snd]; exact createLayer_frame root api bp t n hd
   · split
     · -- only the metadata file exists: it is removed, then the layer is created
       cases unlink_canon root t (tomlPath n) (by simp [tomlPath]) (canon_pair t _ _ hd) with
@@ -402,7 +408,7 @@ theorem request_frame_lemma (root : Bool) (api : Api) (t : FS) (n : Name) (hd : 
         simp only
         have hf1 : Frame n t (ferase t (tomlPath n)) := frame_ferase_own t (own_toml n)
         rw [tag_snd]
-        exact frame_trans hf1 (createLayer_frame root api _ n (layersDir_of_frame hf1 hd))
+        exact frame_trans hf1 (createLayer_frame root api bp _ n (layersDir_of_frame hf1 hd))
     · -- the layer exists
       have hw : ∀ s1, (if existsB root t (tomlPath n) then Except.ok t else writeFile root t (tomlPath n) emptyToml)
           = .ok s1 → Frame n t s1 ∧ fget s1 (layerPath n) = fget t (layerPath n) := by
@@ -426,14 +432,16 @@ theorem request_frame_lemma (root : Bool) (api : Api) (t : FS) (n : Name) (hd : 
           simp only
           split
           · exact hf1
-          · have hf2 := frame_trans hf1 (deleteLayer_frame root s1 n hd1)
-            generalize deleteLayer root s1 n = r at hf2
-            obtain ⟨res, s2⟩ := r
-            cases res with
-            | error e => exact hf2
-            | ok u =>
-              simp only
-              rw [tag_snd]
-              exact frame_trans hf2 (createLayer_frame root api s2 n (layersDir_of_frame hf2 hd))
+          · split
+            · exact hf1
+            · have hf2 := frame_trans hf1 (deleteLayer_frame root s1 n hd1)
+              generalize deleteLayer root s1 n = r at hf2
+              obtain ⟨res, s2⟩ := r
+              cases res with
+              | error e => exact hf2
+              | ok u =>
+                simp only
+                rw [tag_snd]
+                exact frame_trans hf2 (createLayer_frame root api bp s2 n (layersDir_of_frame hf2 hd))
 
 end CnbVerif.RmTree
